@@ -50,7 +50,9 @@ def _validate(case):
             raise Discard("empty axis")
         if not all(math.isfinite(x) for x in ax):
             raise Discard("non-finite axis")
-        if any(b <= a for a, b in zip(ax, ax[1:])):
+        if len(set(ax)) != len(ax):
+            raise Discard("axis with repeated points")
+        if not case.get("axis_order") and any(b <= a for a, b in zip(ax, ax[1:])):
             raise Discard("axis not strictly increasing")
     tol = case["tol"]
     if not (math.isfinite(tol) and tol >= 0):
@@ -82,7 +84,8 @@ def build(case, data_arrays):
     labels = case["labels"]
     spec = {
         "dataset_groups": {"default": {"link_clp": True}},
-        "megacomplex": {"m": {"type": "verif-table", "labels": CLP_LABELS, "rates": ["r.1", "r.2"], "shape": "exp"}},
+        "megacomplex": {"m": {"type": "verif-table", "labels": CLP_LABELS, "rates": ["r.1", "r.2"], "shape": "exp",
+                              "index_dependent": bool(case.get("index_dependent"))}},
         "dataset": {labels[k]: {"megacomplex": ["m"]} for k in range(n)},
     }
     model, params = testmc.make_model(spec, {"r": list(RATES)})
@@ -98,7 +101,8 @@ def build(case, data_arrays):
         variables = {"data": (dims, d.T.copy() if transposed else d.copy())}
         if w is not None:
             variables["weight"] = (dims, w.T.copy() if transposed else w.copy())
-        datasets[k] = xr.Dataset(variables, coords={"model": model_axis(k, m), "global": np.asarray(axes[k], dtype=float)})
+        gdtype = {"int64": np.int64, "float32": np.float32}.get((case.get("axis_dtypes") or ["float64"] * n)[k], np.float64)
+        datasets[k] = xr.Dataset(variables, coords={"model": model_axis(k, m), "global": np.asarray(axes[k], dtype=float).astype(gdtype)})
     data = {labels[k]: datasets[k] for k in case["data_order"]}
     kwargs = {}
     if "nfev" in case:
@@ -386,10 +390,31 @@ def random_axes(draw, n, max_size):
 
 
 @st.composite
-def random_cases(draw, ns=(3, 4, 4, 4, 2), max_size=8, msize=(1, 3)):
+def random_cases(draw, ns=(3, 4, 4, 4, 2), max_size=8, msize=(1, 3), reorder=False):
     n = draw(st.sampled_from(ns))
     axes, tol = draw(random_axes(n, max_size))
+    # the axes as instruments / scripts deliver them: descending or in acquisition order, integer or single precision
+    # coordinates (only where every value is exactly representable, so that the numbers are the same)
+    # (only for the optimize() level: the provider-level clauses are stated for ascending axes - "the aligned axis is strictly
+    # increasing" - and identical descending axes of all datasets are taken over as they are)
+    order = draw(st.sampled_from(["ascending", "ascending", "ascending", "descending", "first_descending", "shuffled"])) if reorder else "ascending"
+    for k in range(n):
+        if order == "descending" or (order == "first_descending" and k == 0):
+            axes[k] = axes[k][::-1]
+        elif order == "shuffled":
+            axes[k] = list(draw(st.permutations(axes[k])))
+    dtypes = []
+    for k in range(n):
+        dt = draw(st.sampled_from(["float64", "float64", "int64", "float32"]))
+        if dt == "int64" and not all(float(v).is_integer() for v in axes[k]):
+            dt = "float64"
+        if dt == "float32" and not all(float(np.float32(v)) == v for v in axes[k]):
+            dt = "float64"
+        dtypes.append(dt)
     return {
+        "axis_order": order,
+        "axis_dtypes": dtypes,
+        "index_dependent": draw(st.booleans()),
         "axes": axes,
         "tol": tol,
         "method": draw(st.sampled_from(METHODS)),
@@ -408,7 +433,7 @@ def random_cases(draw, ns=(3, 4, 4, 4, 2), max_size=8, msize=(1, 3)):
 @st.composite
 def optimize_cases(draw):
     # >= 4 rows per column keeps the degrees of freedom of the fit positive (2 clps per aligned point + 2 parameters)
-    case = draw(random_cases(ns=(2, 2, 3, 3, 4), max_size=4, msize=(4, 6)))
+    case = draw(random_cases(ns=(2, 2, 3, 3, 4), max_size=4, msize=(4, 6), reorder=True))
     case["seed"] = draw(st.integers(0, 2**32 - 1))
     case["nfev"] = 1
     return case
@@ -444,7 +469,8 @@ def prop_optimize(case):
     labels = case["labels"]
     raw = noisy_data(case)
     scheme, weights = build(case, raw)
-    tags = [method, f"n{n}", "tol0" if tol == 0 else "tol>0"]
+    tags = [method, f"n{n}", "tol0" if tol == 0 else "tol>0", f"axes_{case.get('axis_order', 'ascending')}"] + sorted({f"axis_{d}" for d in case.get("axis_dtypes", []) if d != "float64"}) + (
+        ["index_dependent"] if case.get("index_dependent") else [])
     try:
         err_possible, ok_possible = ref.error_analysis(axes, tol, method)
     except ref.TooOpen:
@@ -523,7 +549,11 @@ def prop_optimize(case):
         single += len(members) == 1
         rows, ys = [], []
         for k, c in members:
-            a = testmc.table_matrix("exp", rates, model_axis(k, case["msizes"][k]))
+            if case.get("index_dependent"):
+                # the matrix of a column is the one of its own coordinate, wherever it was aligned to
+                a = testmc.table_matrix("exp", rates, model_axis(k, case["msizes"][k]), gvals=[axes[k][c]])[0]
+            else:
+                a = testmc.table_matrix("exp", rates, model_axis(k, case["msizes"][k]))
             w = weights[k][:, c] if weights[k] is not None else np.ones(case["msizes"][k])
             rows.append(a * w[:, None])
             ys.append(raw[k][:, c] * w)
